@@ -258,6 +258,7 @@ func checkC07(c *Check) {
 	c07R2(c)
 	c07R3(c, sr)
 	c07R4(c, sr)
+	requestIsReadOnly(c, "C07.R1")
 }
 
 func pathParamOf(fn *ssa.Function) *ssa.Parameter {
